@@ -96,18 +96,6 @@ func VH_C09_Add() {
 	vAssert(q.size() == size0+1, "addPacket: size did not grow by one")
 }
 
-// VH_C09_Contains: containsSequence agrees with the modular-interval reference
-// for all in-range base/top and every seq < s.
-func VH_C09_Contains() {
-	s := vU8("s")
-	base, top, seq := vU8("base"), vU8("top"), vU8("seq")
-	vAssume(s >= 2 && base < s && top < s)
-	vReach("contains")
-	vAssume(seq < s) // values >= s are rejected by the callers (VH_C09_ACK / VH_C09_NACK cover them)
-	got := containsSequence(base, top, seq)
-	vAssert(got == refContains(base, top, seq, s), "containsSequence disagrees with the modular interval")
-}
-
 // VH_C09_Config: constructors give s = n+1 and a content array of s slots.
 func VH_C09_Config() {
 	n := vU8("n")
